@@ -30,10 +30,10 @@
    (BlockResults preimage + height, Tx bound to its proof, complete BlockID and LastCommit
    binding in Block/BlockByHash/BlockchainInfo, key path for absence proofs); the behaviour of
    the unrepaired v0.34.24 code is kept as Weak_* switches (marked "(v0.34.24)").
-   Three bindings cannot be repaired in light/rpc and are known findings: ConsistentStrict
+   Two bindings cannot be repaired in light/rpc and are known findings: ConsistentStrict
    demands them, Consistent does not (Tx.TxResult vs LastResultsHash; Validator.Address vs
-   PubKey; the commit of a block obtained by BACKWARDS verification, whose signatures are
-   never verified).  Deliberate deviations of the code are modelled as such and named where they
+   PubKey).  The commit of a block obtained by BACKWARDS verification used to be stored
+   unverified (repaired in light/client.go by 88ebf12; Weak_BackwardsCommitUnverified).  Deliberate deviations of the code are modelled as such and named where they
    occur: BlockchainInfo advances the light client only to the lowest returned height (honest
    multi-height answers are rejected by a light client that has not seen the higher heights --
    outside the statement's list, reported as an observation); a malformed commit block id
@@ -56,6 +56,12 @@ CONSTANTS
   Weak_BackwardsTargetNotRechecked, \* light/client.go backwards(): after a lying primary was replaced in the middle of a backwards
                                \*   verification, the new primary's block for the TARGET height is not compared with the header the
                                \*   caller fetched first (and is about to store)
+  Weak_BackwardsCommitUnverified, \* (before 88ebf12) light/client.go verifyLightBlock: a block verified BACKWARDS is stored without
+                               \*   ValidateBasic / VerifyCommitLight of its commit against its own validator set
+  CommitBlockIDValidated,      \* NOT a weakening -- which of two acceptable behaviours the tree has: FALSE (v0.34.24..88ebf12):
+                               \*   SignedHeader.ValidateBasic does not validate Commit.BlockID and a malformed PartSetHeader hash
+                               \*   PANICS the light client in VerifyCommitLight*; TRUE: it is validated (proposed-fixes/
+                               \*   C20-commit-blockid-validate.diff) and such a block is refused like any malformed one
   Weak_SearchProofFromCachedBlock  \* rpc/core TxSearch: the block is re-loaded only when the result's height is ABOVE the
                                \*   cached block's ("don't load the same block for every tx"): wrong for descending pages
 
@@ -335,6 +341,12 @@ HasPath(r, p) == IF Len(p) = 0 THEN TRUE
                       IF k \in DOMAIN IdxOf THEN IdxOf[k] \in DOMAIN r /\ HasPath(r[IdxOf[k]], Tail(p))
                       ELSE k \in DOMAIN r /\ HasPath(r[k], Tail(p))
 
+\* the attacker's own validator set (how = "forge" on the validator set of a light block).  With
+\* coh = TRUE the liar also recomputes ValidatorsHash and the commit's block hash and SIGNS the
+\* commit with his own key: a self-made, perfectly well-formed light block.
+ForgedVals == <<[addr |-> "vz", pk |-> "pkz", power |-> 10, prio |-> 0]>>
+ForgedSigTerm(c, ts) == "SGZ(" \o BidTerm(c.bid) \o "," \o I2S(c.round) \o "," \o I2S(c.height) \o "," \o I2S(ts) \o ")"
+
 NewVal(how, old, oth) ==
   CASE how = "hjunk"  -> "X1"
     [] how = "hbad"   -> "BAD"
@@ -352,6 +364,7 @@ NewVal(how, old, oth) ==
     [] how = "adds"   -> Append(old, "zz")
     [] how = "swap"   -> Force([i \in 1..Len(old) |-> IF i = 1 THEN old[2] ELSE IF i = 2 THEN old[1] ELSE old[i]])
     [] how = "clear"  -> << >>
+    [] how = "forge"  -> ForgedVals
 
 \* replacements tried for a field of a given type
 Hows(ty, old) ==
@@ -363,6 +376,7 @@ Hows(ty, old) ==
     [] ty = "hseq" -> (IF Len(old) > 0 THEN {"drop"} ELSE {}) \cup {"addh"} \cup (IF Len(old) > 1 THEN {"swap"} ELSE {})
     [] ty = "sseq" -> (IF Len(old) > 0 THEN {"drop"} ELSE {}) \cup {"adds"} \cup (IF Len(old) > 1 THEN {"swap"} ELSE {})
     [] ty = "rseq" -> (IF Len(old) > 0 THEN {"drop", "dup"} ELSE {}) \cup (IF Len(old) > 1 THEN {"swap"} ELSE {})
+    [] ty = "vseq" -> {"drop", "dup", "swap", "forge"}                 \* the validator set of a light block
     [] ty = "opt"  -> IF Len(old) > 0 THEN {"drop"} ELSE {}          \* a nullable record
 
 P(path, ty) == [path |-> path, ty |-> ty]
@@ -415,7 +429,7 @@ Fields(k, r) ==
                      \cup {P(<<"metas", i, "num_txs">>, "uint"), P(<<"metas", i, "size">>, "uint")} : i \in Ix(Len(r.metas))}
     [] k \in ProviderKinds ->
          Pre(<<"header">>, HeaderFields) \cup Pre(<<"commit">>, CommitFields(r.commit))
-         \cup {P(<<"vals">>, "rseq")} \cup UNION {Pre(<<"vals", i>>, ValFields) : i \in Ix(Len(r.vals))}
+         \cup {P(<<"vals">>, "vseq")} \cup UNION {Pre(<<"vals", i>>, ValFields) : i \in Ix(Len(r.vals))}
 
 \* the hashes a consistent liar recomputes after editing `path`
 Under(path, pfx) == Len(path) >= Len(pfx) /\ SubSeq(path, 1, Len(pfx)) = pfx
@@ -442,8 +456,12 @@ Cohere(C, k, r, path) ==
     [] k \in ProviderKinds ->
          LET h1 == IF Under(path, <<"vals">>) THEN [r.header EXCEPT !.vh = ValsHash(r.vals)] ELSE r.header
              r1 == [r EXCEPT !.header = h1]
-         IN IF Under(path, <<"vals">>) \/ Under(path, <<"header">>)
-            THEN [r1 EXCEPT !.commit.bid.hash = HeaderHash(C, h1)] ELSE r1
+             r2 == IF Under(path, <<"vals">>) \/ Under(path, <<"header">>)
+                   THEN [r1 EXCEPT !.commit.bid.hash = HeaderHash(C, h1)] ELSE r1
+         IN IF r2.vals = ForgedVals /\ Len(r.commit.sigs) > 0
+            THEN [r2 EXCEPT !.commit.sigs = <<[flag |-> 2, addr |-> "vz", ts |-> r.commit.sigs[1].ts,
+                                               sig |-> ForgedSigTerm(r2.commit, r.commit.sigs[1].ts)]>>]
+            ELSE r2
     [] OTHER -> r
 CohKinds == {"Block", "BlockByHash", "Tx", "BlockchainInfo", "Commit", "Validators"}
 
@@ -474,13 +492,18 @@ HonestSig(C, h, i)  == C.blocks[h].commit.sigs[i]
 SameSig(s, t) == s.flag = t.flag /\ s.ts = t.ts /\ s.sig = t.sig
 \* a commit signature verifies iff it is the validator's signature over exactly the honest
 \* vote (ed25519 is deterministic; unforgeability assumed)
-SigOK(C, lb, i) ==
+HonestSigOK(C, lb, i) ==
   LET h == lb.header.height IN
   /\ h \in 1..C.tip /\ i <= Len(C.blocks[h].commit.sigs) /\ i <= Len(lb.vals)
   /\ SameSig(lb.commit.sigs[i], HonestSig(C, h, i))
   /\ lb.commit.height = h /\ lb.commit.round = C.blocks[h].commit.round /\ lb.commit.bid = C.blocks[h].bid
   /\ lb.header.chain = C.id
   /\ lb.vals[i].pk = C.blocks[h].vals[i].pk
+\* ... or the attacker's signature, with his own key, over exactly this commit's vote
+ForgedSigOK(C, lb, i) ==
+  /\ i <= Len(lb.vals) /\ lb.vals[i].pk = "pkz" /\ lb.commit.sigs[i].flag = 2 /\ lb.header.chain = C.id
+  /\ lb.commit.sigs[i].sig = ForgedSigTerm(lb.commit, lb.commit.sigs[i].ts)
+SigOK(C, lb, i) == HonestSigOK(C, lb, i) \/ ForgedSigOK(C, lb, i)
 TotalPower(vals) == SumSeq([i \in 1..Len(vals) |-> vals[i].power])
 \* types/validator_set.go VerifyCommitLight: in order, stop at the first time > 2/3 is reached;
 \* a bad signature met before that is an error
@@ -513,6 +536,7 @@ LightBlockBasic(C, lb) ==
   /\ lb.header.chain = C.id
   /\ lb.commit.height = lb.header.height
   /\ lb.commit.bid.hash = HeaderHash(C, lb.header)
+  /\ CommitBlockIDValidated => BidBasic(lb.commit.bid)
   /\ Len(lb.vals) > 0 /\ \A i \in 1..Len(lb.vals) : ValBasic(lb.vals[i])
   /\ Weak_ValsNotHashed \/ ValsHash(lb.vals) = lb.header.vh
 \* types/validator_set.go VerifyCommitLightTrusting (non-adjacent steps, light/verifier.go VerifyNonAdjacent):
@@ -529,7 +553,7 @@ VCTrustErr(C, tvals, lb, i, tallied, seen) ==
           ELSE IF sg.addr \in seen THEN TRUE
           ELSE LET tv == tvals[CHOOSE j \in js : TRUE]
                    h  == lb.header.height IN
-               IF ~(SigOK(C, lb, i) /\ tv.pk = C.blocks[h].vals[i].pk) THEN TRUE
+               IF ~(HonestSigOK(C, lb, i) /\ tv.pk = C.blocks[h].vals[i].pk) THEN TRUE
                ELSE VCTrustErr(C, tvals, lb, i + 1, tallied + tv.power, seen \cup {sg.addr})
 
 \* verification of lb (served for height h) against the store, then witness cross-check
@@ -559,10 +583,17 @@ MinOf(S) == CHOOSE t \in S : \A u \in S : t <= u
 \* requires the chain to end in the header fetched first.  pp = "break": the first interim header
 \* does not chain -> VerifyBackwards fails -> findNewPrimary(h) -> the witness' (honest) block must
 \* have the hash of the header fetched first, else the original error is returned.
+\* [repaired by 88ebf12] the hash chain binds the header only; the block is stored and served with its
+\* commit and validator set, so it is validated and its commit verified against its OWN validator set
+\* (VerifyCommitLight) before it is stored.
 LCBackwards(C, h, lb, pp) ==
   LET match == HeaderHash(C, lb.header) = C.blocks[h].bid.hash IN
-  IF pp = "break" /\ Weak_BackwardsTargetNotRechecked THEN "ok"      \* the forged block is stored
-  ELSE IF match THEN "ok" ELSE "lc:backwards"
+  IF ~((pp = "break" /\ Weak_BackwardsTargetNotRechecked) \/ match) THEN "lc:backwards"
+  ELSE IF Weak_BackwardsCommitUnverified THEN "ok"
+  ELSE IF ~LightBlockBasic(C, lb) THEN "lc:basic"
+  ELSE IF ~BidBasic(lb.commit.bid) THEN "lc:panic"        \* same named deviation as in LCVerify
+  ELSE IF Len(lb.commit.sigs) # Len(lb.vals) \/ ~VCLight(C, lb, 1, 0) THEN "lc:commit"
+  ELSE "ok"
 LCGet(C, have, h, sent, pp) ==
   IF h \in have /\ h \in 1..C.tip THEN [st |-> "ok", lb |-> HonestLightBlock(C, h)]
   ELSE IF h < 1 \/ h > C.tip THEN [st |-> "lc:height", lb |-> sent]
@@ -757,10 +788,7 @@ ConsCommitFull(C, T, g) ==
   /\ 3 * SumSeq([i \in 1..Len(g.commit.sigs) |->
                    IF SameSig(g.commit.sigs[i], HonestSig(C, h, i)) /\ g.commit.sigs[i].flag = 2 THEN C.blocks[h].vals[i].power ELSE 0])
        > 2 * TotalPower(C.blocks[h].vals)
-\* A commit obtained by BACKWARDS verification is stored without its signatures ever being
-\* verified (light/client.go verifyLightBlock: backwards() links the header only): known finding
-\* C20-backwards-commit-unverified; ConsistentStrict demands the full commit there too.
-ConsCommit(C, T, a, g) == ConsCommitHdr(C, T, g) /\ (Backwards(C, a) \/ ConsCommitFull(C, T, g))
+ConsCommit(C, T, a, g) == ConsCommitFull(C, T, g)
 ConsVals(C, T, a, g) ==
   LET h == g.height IN
   /\ OnChain(C, T, h)
@@ -842,7 +870,6 @@ UncommittedOnlyCase(C, cs) ==
            \/ (cs.kind = "Tx" /\ cs.f.edits[1].path = <<"proof", "proof", "total">>)     \* shape alias (C10 known finding)
            \/ (cs.kind = "Tx" /\ Under(cs.f.edits[1].path, <<"result">>))                 \* known finding C20-tx-result-unproven
            \/ (cs.kind = "Validators" /\ LastOf(cs.f.edits[1].path) = "addr")             \* known finding C20-validator-address-unbound
-           \/ (cs.kind = "Commit" /\ Backwards(C, cs.a) /\ Under(cs.f.edits[1].path, <<"commit">>))
            \/ Returned(C, cs.kind, cs.a, sent) = Returned(C, cs.kind, cs.a, Honest(C, cs.kind, cs.a))
            \/ \E a2 \in HonestArgs(C, cs.kind) : sent = Honest(C, cs.kind, a2)              \* a different but genuine answer
 
@@ -861,7 +888,6 @@ CaseOK(C, cs) ==
               \/ (k = "Tx" /\ cs.f.edits[1].path = <<"proof", "proof", "total">>)
               \/ (k = "Tx" /\ Under(cs.f.edits[1].path, <<"result">>))
               \/ (k = "Validators" /\ LastOf(cs.f.edits[1].path) = "addr")
-              \/ (k = "Commit" /\ Backwards(C, cs.a) /\ Under(cs.f.edits[1].path, <<"commit">>))   \* known finding (backwards)
               \/ ret = Returned(C, k, cs.a, hon)                          \* the lie was discarded (primary replaced)
               \/ \E a2 \in HonestArgs(C, k) : sent = Honest(C, k, a2)
 
